@@ -229,15 +229,27 @@ def script_inputs():
         yield [p for k, p in enumerate(OPTIONAL) if mask >> k & 1]
 
 
-def run_script(fields):
+def run_script(fields, via_manager=False):
+    """The script of a batch: directly from SlurmManager, or (via_manager) the way a submitter round produces it --
+    HpcManager.submit for the second of two submission groups whose SLURM settings differ (dry run: no sbatch)."""
     from jade.hpc.slurm_manager import SlurmManager
     from jade.models import HpcConfig, SlurmConfig
     base = mkbase()
     try:
         cfg = HpcConfig(hpc_type="slurm", hpc=SlurmConfig(account="acct", walltime="1:30:00", **{p: VALUES[p] for p in fields}))
-        mgr = SlurmManager(cfg)
         fn = os.path.join(base, "job_batch_7.sh")
-        mgr.create_submission_script("job_batch_7", "/out/run_batch_7.sh", fn, "/out dir")
+        if via_manager:
+            from jade.hpc.hpc_manager import HpcManager
+            from jade.models import SubmitterParams, SubmissionGroup
+            other = HpcConfig(hpc_type="slurm", hpc=SlurmConfig(account="other", walltime="0:05:00",
+                                                                **{p: VALUES[p] for p in OPTIONAL if p not in fields and p != "gres"}))
+            groups = {"first": SubmissionGroup(name="first", submitter_params=SubmitterParams(hpc_config=other)),
+                      "second": SubmissionGroup(name="second", submitter_params=SubmitterParams(hpc_config=cfg))}
+            mgr = HpcManager(groups, "/out dir")
+            mgr.submit(base, "job_batch_7", "/out/run_batch_7.sh", "second", dry_run=True)
+        else:
+            mgr = SlurmManager(cfg)
+            mgr.create_submission_script("job_batch_7", "/out/run_batch_7.sh", fn, "/out dir")
         lines, srun = [], ""
         for line in open(fn).read().split("\n"):
             m = re.match(r"^#SBATCH --([A-Za-z_\-]+)=(.*)$", line)
